@@ -10,7 +10,7 @@ CLAIM = ('Queue kernel of private broadcast: the real PrivateBroadcast (private_
          'and records exactly one new send for exactly that node id; a node id maps to at most one transaction and GetTxForNode(id) returns exactly the transaction picked for id; GetStale returns exactly the '
          'pending transactions not added/confirmed within the documented durations. The default limits are 10,000 transactions / 1,000 sends. '
          'The mempool/net_processing side of the property (m_last_inv_sequence rule, staying out of the mempool, announcing only on private-broadcast connections) is not decided.')
-OPS = dict(none=0, add0=1, add0copy=2, add1=3, rm0=4, rm1=5, pick=6, confirm=7, q=8)
+OPS = dict(none=0, add0=1, add0copy=2, add1=3, rm0=4, rm1=5, pick=6, confirm=7, q=8, stale=9)
 W = dict(added=1, notadded=2, t0=4, t1=8, none=16, known=32, unknown=64, stale=128)
 def pend(s, ms): return 0 <= s < ms
 def auto_wit(ms, s0, s1, op):
@@ -26,9 +26,8 @@ def auto_wit(ms, s0, s1, op):
         if me < 0: w |= W['notadded'] | W['added']      # full (max_transactions == n) or room
         else: w |= W['notadded'] if pend(me, ms) else W['added']
     if op == 'confirm' and (s0 > 0 or s1 > 0): w |= W['known']
-    if op == 'q':
-        w |= W['unknown'] | (W['known'] if (s0 > 0 or s1 > 0) else 0)
-        if any(pend(x, ms) for x in S): w |= W['stale']
+    if op == 'q': w |= W['unknown'] | (W['known'] if (s0 > 0 or s1 > 0) else 0)
+    if op == 'stale' and any(pend(x, ms) for x in S): w |= W['stale']
     return w
 def e(ms, s0, s1, *ops, wit=None):
     assert s0 <= ms and s1 <= ms
@@ -42,22 +41,26 @@ def e(ms, s0, s1, *ops, wit=None):
 def states(ms): return [(a, b) for a in range(-1, ms + 1) for b in range(-1, ms + 1)]
 quick = []
 # PickTxForSend from every state shape with max_send_attempts = 2 (followed by the read-only queries on the post state), and boundary shapes for 1 and 3
-for a, b in states(2): quick.append(e(2, a, b, 'pick', 'q'))
-for a, b in [(0, 0), (1, 0), (1, 1), (-1, 1)]: quick.append(e(1, a, b, 'pick', 'q'))
-for a, b in [(2, 2), (3, 2), (1, 3), (3, 3), (0, 3)]: quick.append(e(3, a, b, 'pick', 'q'))
+for a, b in states(2): quick.append(e(2, a, b, 'pick', 'q') if not (a == b and a >= 1) else e(2, a, b, 'pick'))   # equal non-zero counts: the choice is symbolic (decided by times); queries on the merged post state are too heavy
+for a, b in [(0, 0), (1, 0)]: quick.append(e(1, a, b, 'pick', 'q'))
+for a, b in [(3, 2), (1, 3)]: quick.append(e(3, a, b, 'pick', 'q'))
+quick.append(e(3, 2, 2, 'pick'))
 # Add / Remove / Confirm single steps
-for ms, a, b in [(2, -1, -1), (2, -1, 1), (2, 0, 0), (2, 1, 2), (2, 2, 1), (3, 3, -1), (3, 3, 0), (3, 2, 3), (1, 1, 1), (1, 0, -1)]: quick.append(e(ms, a, b, 'add0'))
-for ms, a, b in [(2, -1, 0), (2, 1, 1), (2, 2, -1), (3, 3, 1)]: quick.append(e(ms, a, b, 'add0copy'))
-for ms, a, b in [(2, -1, 1), (2, 0, -1), (2, 1, 1), (2, 2, 2), (3, 3, 1)]: quick.append(e(ms, a, b, 'rm0', 'q'))
-for ms, a, b in [(2, -1, -1), (2, 1, 0), (2, 1, 1), (2, 2, 1), (2, 0, 2), (3, 3, 2)]: quick.append(e(ms, a, b, 'confirm', 'q'))
+for ms, a, b in [(2, -1, -1), (2, -1, 1), (2, 0, 0), (2, 2, 1), (3, 3, 0), (3, 2, 3)]: quick.append(e(ms, a, b, 'add0'))
+for ms, a, b in [(2, -1, 0), (2, 1, 1), (3, 3, 1)]: quick.append(e(ms, a, b, 'add0copy'))
+for ms, a, b in [(2, -1, 1), (2, 1, 1), (3, 3, 1)]: quick.append(e(ms, a, b, 'rm0', 'q'))
+for ms, a, b in [(2, 1, 0), (2, 2, 1), (3, 3, 2)]: quick.append(e(ms, a, b, 'confirm', 'q'))
+# GetStale (at most one pending transaction; two pending ones are out of reach, see bounds)
+for ms, a, b in [(2, 0, -1), (2, 1, 2), (2, -1, 1), (3, 2, 3), (2, 2, 2)]: quick.append(e(ms, a, b, 'stale'))
 # three-operation histories
-quick += [e(2, -1, -1, 'add0', 'add1', 'pick', wit=['added', 'notadded', 'none']), e(1, 0, 0, 'pick', 'pick', 'pick', wit=['none']), e(2, 1, 1, 'confirm', 'pick', 'q', wit=['known', 't0', 't1', 'stale']),
+quick += [e(2, -1, -1, 'add0', 'add1', 'pick', wit=['added', 'notadded', 'none']), e(1, 0, 0, 'pick', 'pick', 'pick', wit=['none']), e(2, 1, 1, 'confirm', 'pick', 'q', wit=['known', 't0', 't1']),
           e(1, 0, -1, 'pick', 'rm0', 'add0', wit=['t0', 'added']), e(2, 1, 0, 'pick', 'confirm', 'pick', wit=['t0', 't1', 'known']),
-          e(2, 2, -1, 'pick', 'add0', 'pick', wit=['t0', 'none', 'added']), e(2, 1, 1, 'rm1', 'pick', 'pick', wit=['t0', 'none']), e(2, 0, 1, 'pick', 'add1', 'q', wit=['t0', 'notadded', 'known', 'stale'])]
+          e(2, 2, -1, 'pick', 'add0', 'pick', wit=['t0', 'none', 'added']), e(2, 1, 1, 'rm1', 'pick', 'pick', wit=['t0', 'none'])]
 thorough = list(quick)
 for ms in (1, 2, 3):
     for a, b in states(ms):
         for op in ('pick', 'add0', 'add1', 'add0copy', 'rm0', 'rm1', 'confirm'): thorough.append(e(ms, a, b, op, 'q'))
+        if not (pend(a, ms) and pend(b, ms)): thorough.append(e(ms, a, b, 'stale'))
 for a, b in states(2): thorough.append(e(2, a, b, 'pick', 'pick', wit=[]))
 def uniq(l):
     seen = set(); out = []
@@ -65,6 +68,16 @@ def uniq(l):
         if x[0] not in seen: seen.add(x[0]); out.append(x)
     return out
 quick = uniq(quick); thorough = uniq(thorough)
+TP = 'NSt6chrono10time_pointI9NodeClockNS7_8durationIlSt5ratioILl1ELl1000000000EEEEEE'
+TP2 = TP.replace('NS7_', 'NSA_')
+# loops with a constant trip count above the global bound: 16-byte address copies (prevector in CService), 13 initial hash buckets
+BIG = ['_ZNSt6vectorIN16PrivateBroadcast10SendStatusESaIS1_EE17_M_realloc_insertIJRl8CService%sEEEvN9__gnu_cxx17__normal_iteratorIPS1_S3_EEDpOT_.0' % TP,
+       '_ZNSt6vectorIN16PrivateBroadcast10SendStatusESaIS1_EE17_M_realloc_insertIJRKlRK8CService%sEEEvN9__gnu_cxx17__normal_iteratorIPS1_S3_EEDpOT_.0' % TP2,
+       '_ZNSt6vectorIN16PrivateBroadcast10SendStatusESaIS1_EE12emplace_backIJRl8CService%sEEERS1_DpOT_.0' % TP,
+       '_ZNSt6vectorIN16PrivateBroadcast10SendStatusESaIS1_EE12emplace_backIJRKlRK8CService%sEEERS1_DpOT_.0' % TP2,
+       '_ZSt16__do_uninit_copyIPKN16PrivateBroadcast10SendStatusEPS1_ET0_T_S6_S5_.0']
+HT = '_ZNSt10_HashtableISt10shared_ptrIK12CTransactionESt4pairIKS3_N16PrivateBroadcast12TxSendStatusEESaIS8_ENSt8__detail10_Select1stENS6_19CTransactionRefCompENS6_19CTransactionRefHashENSA_18_Mod_range_hashingENSA_20_Default_ranged_hashENSA_20_Prime_rehash_policyENSA_17_Hashtable_traitsILb1ELb0ELb1EEEE13_M_rehash_auxEmSt17integral_constantIbLb1EE.0'
+US = ','.join(['%s:17' % x for x in BIG] + [HT + ':14'])
 LINK = ['private_broadcast.cpp', 'primitives/transaction.cpp', 'script/script.cpp', 'uint256.cpp', 'hash.cpp', 'netaddress.cpp']
 FN = ['PrivateBroadcast::Add/Remove/PickTxForSend/GetTxForNode/NodeConfirmedReception/DidNodeConfirmReception/HavePendingTransactions/GetStale/IsPending/DerivePriority/GetSendStatusByNode (private_broadcast.cpp)',
       'PrivateBroadcast::Priority::operator<=>, CTransactionRefHash/CTransactionRefComp (private_broadcast.h)', 'std::unordered_map (find/try_emplace/extract), std::vector<SendStatus>, std::ranges::max_element (libstdc++ headers)']
@@ -74,7 +87,7 @@ STUBS = ['NodeClock::now -> harness clock (symbolic, non-decreasing)', 'CSHA256 
 HARNESSES = [
     H('limits', 'pbq.cpp', 'h_limits', link=LINK, shadow=['nofmt'], unwind=16, memunwind=40, timeout=300, objbits=10, functions=['PrivateBroadcast::PrivateBroadcast, MAX_TRANSACTIONS, MAX_SEND_ATTEMPTS'], stubs=STUBS,
       bounds='constants'),
-    H('pbq', 'pbq.cpp', 'h_pbq', link=LINK, noop=['_ZNSt15_Sp_counted_ptrIP12CTransactionLN9__gnu_cxx12_Lock_policyE2EE10_M_disposeEv'], entries=quick, tentries=thorough, shadow=['nofmt'], unwind=16, memunwind=40, timeout=600, objbits=11, functions=FN, stubs=STUBS,
+    H('pbq', 'pbq.cpp', 'h_pbq', link=LINK, noop=['_ZNSt15_Sp_counted_ptrIP12CTransactionLN9__gnu_cxx12_Lock_policyE2EE10_M_disposeEv'], entries=quick, tentries=thorough, shadow=['nofmt'], unwind=6, unwindset=US, memunwind=40, timeout=600, objbits=11, functions=FN, stubs=STUBS,
       assumptions=['start state well-formed: size <= max_transactions, sends per transaction <= max_send_attempts, node ids pairwise distinct, times after the epoch and not in the future (each re-asserted after every operation)',
                    'PickTxForSend is called with a node id not used before (documented precondition; the code Assume()s it)'],
       bounds='%d quick / %d thorough shapes: 2 transactions (absent or 0..3 recorded sends each), <= 3 operations; ids/times/flags/limits symbolic' % (len(quick), len(thorough))),
